@@ -308,7 +308,7 @@ def _cos_sin(theta):
         f = Fraction(theta)
         raise NotImplementedError(f"rotation matrix of a concrete irrational angle {float(f)}")
     key = theta.e.get_id()
-    ent = symx.CTX.__dict__.setdefault("_trig", {})
+    ent = symx.CTX.scratch.setdefault("trig", {})
     if key not in ent:
         c = SReal(symx.CTX.var("cos"))
         s = SReal(symx.CTX.var("sin"))
@@ -319,7 +319,7 @@ def _cos_sin(theta):
 
 def _angle_from_matrix(M):
     """If M is (a quarter-turn multiple of) a registered angle-mode yaw matrix, return (theta', sign)."""
-    ent = getattr(symx.CTX, "_trig", None) if symx.CTX is not None else None
+    ent = symx.CTX.scratch.get("trig") if symx.CTX is not None else None
     if not ent:
         return None
     if not (is_sym(M[0][0]) and is_sym(M[1][0])):
